@@ -522,6 +522,9 @@ func (v *verifier) translate(fn *ssa.Function, c *Contract) *fnTrans {
 	if fn.Pkg != nil {
 		v.curPkg = fn.Pkg.Pkg.Path()
 	}
+	if c != nil && c.AbsCur {
+		v.curPkg = xselPath + "/exec"
+	}
 	defer func() { v.curPkg = old }()
 	p1 := newFnTrans(v, fn, c, nil)
 	p1.run()
